@@ -394,7 +394,7 @@ def _native_jobs(prop, repo, outdir, thorough=False):
             exh = "--exhaustive" in pargs
             if exh and prof:
                 continue  # the exhaustive enumeration is deterministic: once, in the dev profile
-            jobs.append((f"{name} {' '.join(pargs)}".strip() + plabel, crate, cmd, bool(prof) or exh, ({"VERIF_EXHAUSTIVE_N": "5"} if (exh and thorough) else {})))
+            jobs.append((f"{name} {' '.join(pargs)}".strip() + plabel, crate, cmd, bool(prof) or exh, ({"VERIF_EXHAUSTIVE_N": "5"} if (exh and thorough and prop in ("C02", "C03", "C04")) else {})))
     # the whole-run harness once more on a tokio current-thread runtime (its cooperative budget changes which polls return Pending)
     for b in REPLAY_BINS.get(prop, []):
         if b[0] == "c_run":
@@ -432,7 +432,8 @@ def bounded_exploration(prop, repo, outdir, seeds):
     tdir = os.path.join(VERIF, "replay", "target") if repo == "/repo" else os.path.join(outdir, "replay_target")
     for label, cwd, cmd, secondary, jenv in _native_jobs(prop, repo, outdir, thorough=True):
         # every driver seed in the default configuration; the other configurations once, with the last seed
-        for sd in (seeds[-1:] if secondary else seeds):
+        # the whole-run harness is the most expensive one (4200-function graph, budget sweep, threads): two driver seeds
+        for sd in (seeds[-1:] if secondary else (seeds[:2] if label.startswith("c_run") else seeds)):
             env = dict(ENV, VERIF_SEED=str(sd), **jenv)
             t0 = time.time()
             what = f"native search {label} (driver seed {sd})"
